@@ -23,7 +23,7 @@ ALLOWED_IMPORT_PREFIX = ("xdis", "traceback", "linecache", "tokenize", "token", 
                          "posixpath", "genericpath", "zlib", "binascii", "string", "_strptime", "locale", "calendar", "heapq", "bisect", "_colorize", "dataclasses", "inspect", "dis", "opcode", "_opcode")
 
 
-def run_one(path, data, limit_s):
+def run_one(path, data, limit_s, emit=None):
     events = []
 
     def hook(ev, args):
@@ -71,9 +71,18 @@ def run_one(path, data, limit_s):
     sys.stdout, sys.stderr = io.StringIO(), io.StringIO()
     try:
         try:
-            (version, ts, magic_int, co, pypy, ss, sip) = load_module(path)
+            t_load = time.time()
+            try:
+                (version, ts, magic_int, co, pypy, ss, sip) = load_module(path)
+            finally:
+                res["load_s"] = round(time.time() - t_load, 3)
             res["outcome"] = "tuple"
             res["ver"], res["magic"] = list(version[:2]), magic_int
+            if emit is not None:
+                # load_module has returned: that is C11's verdict.  Walking a corrupt *native* code object (fast path) can itself crash
+                # the interpreter; such a crash happens in this harness's projection, after the call, and must not be charged to the call.
+                first = dict(res, cause="projection did not finish", stdout=len(sys.stdout.getvalue()), audit=sorted(set(events)))
+                emit(first)
             try:
                 ctx = mproj.Ctx(tuple(version[:2]) >= (3, 0), mproj.layout_of(version, magic_int), "xdis")
                 res["tok"] = mproj.tokens(co, ctx, [])
@@ -115,8 +124,8 @@ def main():
             if pid == 0:
                 os.close(rfd)
                 try:
-                    r = run_one(path, data, 30)
-                    os.write(wfd, json.dumps(r).encode())
+                    r = run_one(path, data, 30, emit=lambda part: os.write(wfd, json.dumps(part).encode() + b"\n"))
+                    os.write(wfd, json.dumps(r).encode() + b"\n")
                 finally:
                     os._exit(0)
             os.close(wfd)
@@ -128,8 +137,17 @@ def main():
                 chunks.append(b)
             os.close(rfd)
             _, status = os.waitpid(pid, 0)
-            if chunks:
-                r = json.loads(b"".join(chunks).decode())
+            lines = [ln for ln in b"".join(chunks).decode().split("\n") if ln.strip()]
+            r = None
+            for ln in reversed(lines):      # the last complete report wins (the first one is written as soon as load_module returns)
+                try:
+                    r = json.loads(ln)
+                    break
+                except ValueError:
+                    continue
+            if r is not None:
+                if not (os.WIFEXITED(status) and os.WEXITSTATUS(status) == 0):
+                    r["after_return"] = "worker died after load_module returned (status %d)" % status
             elif os.WIFSIGNALED(status) and os.WTERMSIG(status) == signal.SIGALRM:
                 r = {"outcome": "timeout", "cause": "", "audit": [], "tok": [], "ver": [0, 0], "magic": -1}
             else:
